@@ -43,7 +43,7 @@ def h_cue(n: int, k0: int, k1: int, k2: int, k3: int, k4: int) -> int:
     ks = [conc(k, 0, 7) for k in (k0, k1, k2, k3, k4)[:n]]
     lines = [LINE_KINDS[k] for k in ks]
     calls = [0]
-    budget = 2 * n + 2
+    budget = 3 * n + 2                   # a line is looked at up to three times: peeked by the FILE loop, parsed by the track parser, pushed back
 
     def counting(ls):
         calls[0] += 1
@@ -410,7 +410,7 @@ def obligations(tier, seed):
         return dict(name=name, module="vf.props.c13", func=func, extra_pre=pre, timeout=T, runs=RUNS, sym=sym, bound=bound,
                     stubs=kw.pop("stubs", []), **kw)
     for n in ((0, 1, 2, 3) if q else (0, 1, 2, 3, 4)):
-        obs.append(ob(f"C13.cue/n={n}", "h_cue", [f"n == {n}"], "kind of every line", f"cue sheets of {n} lines over 8 line kinds; budget 2n+2 calls",
+        obs.append(ob(f"C13.cue/n={n}", "h_cue", [f"n == {n}"], "kind of every line", f"cue sheets of {n} lines over 8 line kinds; budget 3n+2 calls",
                       stubs=["counting wrapper around get_nonempty_entry"]))
     if q:
         obs.append(ob("C13.cue/n=4/FILE-first", "h_cue", ["n == 4", "k0 == 0"], "kind of lines 2..4", "4-line sheets starting with FILE",
